@@ -278,7 +278,7 @@ json damaged_plan(Rng &r, int tier)
 		steps.push_back(parse_step(0, 0, "buf", "include(\"/c02/damaged.conf\")\n"));
 	}
 	plan["world"] = {{"fs", fs}, {"env", {{"X", "1"}, {"HOME", "/home/u"}}}};
-	plan["knobs"] = {{"tty", r.chance(1, 6)}, {"fill", r.chance(1, 2) ? 0xA5 : 0}};
+	plan["knobs"] = {{"tty", r.chance(1, 6)}, {"fill", r.chance(1, 2) ? 0xA5 : 0}, {"recycle", r.chance(1, 2)}};
 	// afterwards: still usable
 	steps.push_back(step(0, "print", 0));
 	TextGen tg2;
